@@ -829,9 +829,16 @@ KEYMAPS_Q = ('raw', 'rawsent', 'str', 'strflat', 'picklenf', 'md5nf', 'pyhash')
 KEYMAPS_T = ('raw', 'rawnf', 'rawsent', 'rawtyped', 'str', 'strflat', 'pickle', 'picklenf', 'md5', 'md5nf', 'pyhash')
 
 
+def thorough_shapes():
+    """every shape with at most 2 positional-or-keyword and at most 1 keyword-only parameter (72), plus the quick shapes"""
+    out = [sh for sh in all_shapes() if sh['npos'] <= 2 and sh['nkwo'] <= 1]
+    have = {shape_name(sh) for sh in out}
+    return out + [sh for sh in quick_shapes() if shape_name(sh) not in have]
+
+
 def plan(prop, tier):
     q = tier == 'quick'
-    shapes = quick_shapes() if q else all_shapes()
+    shapes = quick_shapes() if q else thorough_shapes()
     cfgs = []
 
     def add(sh, km, **kw):
